@@ -5,6 +5,7 @@
 -/
 import DV.Driver.Syntax
 import DV.Model.Decode
+import DV.Model.Framing
 import DV.Generated.Dict
 import DV.Generated.Classes
 import DV.Generated.Commands
@@ -205,6 +206,20 @@ def handle (toks : List String) : String :=
         s!"{mc.answerClass} {showHeader ha} REQ {showHeader hreq}"
       | none => "BAD"
     | _, _, _, _, _, _, _ => "BAD"
+  | "FRAME" :: chunks =>
+    match chunks.mapM ofHex with
+    | none => "BAD"
+    | some cs =>
+      let dec := fun (b : Bytes) => match decodeMsg env b false with | .ok _ => true | .error _ => false
+      let (st, evs) := feedAll dec Config.frameSkipZeroGuard Config.frameFallThrough { buf := [], closed := false } cs
+      let dl := evs.filterMap fun e => match e with
+        | .deliver f => match decodeHeader f with
+          | .ok h => some s!"{h.code}:{h.hbh}:{h.e2e}:{f.length}"
+          | .error _ => some "?"
+        | _ => none
+      let spin := evs.contains .spin
+      let closed := evs.contains .close
+      s!"D[{",".intercalate dl}] closed={if closed then 1 else 0} spin={if spin then 1 else 0} resid={st.buf.length}"
   | _ => "BAD"
 
 partial def loop (inp : IO.FS.Stream) (out : IO.FS.Stream) : IO Unit := do
